@@ -13,7 +13,6 @@ import decimal
 import re
 import textwrap
 
-from functools import lru_cache as cache
 from decimal import Decimal
 
 import dateutil.parser
@@ -884,6 +883,8 @@ class Row:
     def __init__(self, entries, options):
         self.rowid = 0
         self.balance = inventory.Inventory()
+        self.balance_rowid = None
+        self.balance_value = None
 
 
 class BeanTable(tables.Table):
@@ -1229,16 +1230,18 @@ def weight(context):
 
 
 @column(inventory.Inventory)
-@cache(maxsize=1)
 def balance(context):
     """The balance for the posting. These can be summed into inventories."""
-    # Caching protects against multiple balance updates per row when
-    # the columns appears more than once in the execurted query. The
-    # rowid in the row context guarantees that otherwise identical
-    # rows do not hit the cache and thus that the balance is correctly
-    # updated.
-    context.balance.add_position(context.posting)
-    return copy.copy(context.balance)
+    # The balance is updated once per row, however many times the
+    # column appears in the executed query. The value is kept on the
+    # row context: a cache shared between executions can be evicted by
+    # another query (a subquery, another thread) between two
+    # evaluations for the same row, updating the balance twice.
+    if context.balance_rowid != context.rowid:
+        context.balance.add_position(context.posting)
+        context.balance_value = copy.copy(context.balance)
+        context.balance_rowid = context.rowid
+    return context.balance_value
 
 
 @column(dict)
